@@ -7,6 +7,7 @@ documentation defines it."""
 import itertools
 
 import py4hw
+from mc import core
 from mc import comb
 from mc.refmodels import logic
 
@@ -285,7 +286,7 @@ def build(d):
     try:
         cls(hw, 'dut', *args)
     except Exception as e:                      # includes AssertionError
-        py4hw.Wire.prepared = []
+        core.reset_prepared()
         raise Rejected('%s: %s' % (type(e).__name__, e))
     remap = {}
     for lst, names in lists:
